@@ -453,3 +453,646 @@ def translate_or_stub(items, header, footer=""):
         out.append(sig + "\n" + body + "\n")
     out.append(footer)
     return "\n".join(out), reasons
+
+
+# =====================================================================================================================
+# Rules2M / Translator2M — APPENDED (nothing above is changed; Translator2 / Rules2 behave exactly as before).
+# Generic additions needed by harness/trans_c20.py, usable by any property:
+#   * operands whose rule is flagged "bind" (a call that may raise, modelled in `Except` / `Option`) are HOISTED into
+#     a bind in front of the statement they occur in:  `a.f(x).g(y)`  ->  `(f a x).bind fun h_0 => g h_0 y`
+#     (not inside loop bodies, whose state is not monadic; evaluation order: left to right, before the statement);
+#   * stmt rules may carry a 4th element "bind" (the new value of the receiver is computed in the monad);
+#   * `lambda a, b: <expr>`  ->  `(fun a0 b0 => <expr>)`  (the body may be monadic: the rule using the lambda decides);
+#   * `x is None` / `x is not None`  ->  `(x.isNone)` / `(!x.isNone)`;
+#   * float constants through `Rules2M.float_` (template with {n} / {d}: the exact decimal value as a fraction);
+#   * `a and b` / `a or b` whose later operands are monadic keep Python's short circuit (a monadic Boolean, `unit`);
+#     a conditional expression with a monadic arm is refused (it would be evaluated eagerly);
+#   * `import` / `from .. import` inside a function body: dropped;
+#   * `ret` and `end` templates are formatted with the current Lean names of the Python variables ({self}, {p}, ...),
+#     so that an in-place method can return its receiver:  end=".ok {self}",  ret=".ok {self}"  (ret also gets {e}).
+# =====================================================================================================================
+
+class Rules2M(Rules2):
+    """`float_`: template ({n}, {d}) or callable (n, d) -> lean text for a float constant; `unit`: the monad's return
+    (template with {e}), needed only for short-circuit tests with monadic operands"""
+
+    def __init__(self, expr=(), stmt=(), float_=None, unit=None, **kw):
+        stmt = list(stmt)
+        self.stmt_flag = [(s[3] if len(s) > 3 else "") for s in stmt]
+        Rules2.__init__(self, expr=expr, stmt=[tuple(s[:3]) for s in stmt], **kw)
+        self.float_ = float_
+        self.unit = unit
+
+
+class Translator2M(Translator2):
+    def __init__(self, rules):
+        Translator2.__init__(self, rules)
+        self._pending = []
+        self._ctxs = []
+        self._tmp = 0
+
+    @staticmethod
+    def _fmt(tmpl, scope, **extra):
+        env = {k: v for k, v in scope.items() if k.isidentifier()}
+        env.update(extra)
+        try:
+            return tmpl.format(**env)
+        except (KeyError, IndexError) as e:
+            raise Untranslatable("template %r needs the variable %s" % (tmpl, e))
+
+    # ------------------------------------------------------------------------------------------ expressions
+    def expr(self, node, scope):
+        for i, (pat, tmpl, flag) in enumerate(self.r.expr):
+            env = {}
+            if match(pat, node, env):
+                self.used_rules.add(i)
+                return tmpl.format(**{k: self.pure(v, scope) for k, v in env.items()}), flag
+        if isinstance(node, ast.Lambda):
+            a = node.args
+            if a.vararg or a.kwarg or a.kwonlyargs or a.defaults or a.posonlyargs or not a.args:
+                raise Untranslatable("lambda with a non-trivial signature: `%s`" % ast.unparse(node))
+            sc, names = dict(scope), []
+            for x in a.args:
+                new = self.fresh(x.arg, sc)
+                sc[x.arg] = new
+                names.append(new)
+            self._pending.append([])
+            self._ctxs.append(None)
+            try:
+                body, flag = self.expr(node.body, sc)
+            finally:
+                pend = self._pending.pop()
+                self._ctxs.pop()
+            if pend and flag != "bind":
+                raise Untranslatable("lambda with a monadic operand and a pure result: `%s`" % ast.unparse(node))
+            for e, tmp in reversed(pend):
+                body = self.r.bind.format(m=e, x=tmp, k=body)
+            return "(fun %s => %s)" % (" ".join(names), body), ""
+        if (isinstance(node, ast.Compare) and len(node.ops) == 1 and isinstance(node.ops[0], (ast.Is, ast.IsNot))
+                and isinstance(node.comparators[0], ast.Constant) and node.comparators[0].value is None):
+            x = self.pure(node.left, scope)
+            return ("(!%s.isNone)" if isinstance(node.ops[0], ast.IsNot) else "(%s.isNone)") % x, ""
+        if isinstance(node, ast.Constant) and isinstance(node.value, float) and getattr(self.r, "float_", None):
+            from fractions import Fraction
+            f = Fraction(repr(node.value))
+            if callable(self.r.float_):
+                return self.r.float_(f.numerator, f.denominator), ""
+            return self.r.float_.format(n=f.numerator, d=f.denominator), ""
+        if isinstance(node, ast.BoolOp):
+            return self._boolop(node, scope)
+        if isinstance(node, ast.IfExp):
+            # the arms are evaluated lazily in Python: an arm that would be hoisted is not translated
+            depth = len(self._pending[-1]) if self._pending else 0
+            test = self.pure(node.test, scope)
+            mark = len(self._pending[-1]) if self._pending else 0
+            a, b = self.pure(node.body, scope), self.pure(node.orelse, scope)
+            if self._pending and len(self._pending[-1]) != mark:
+                del self._pending[-1][depth:]
+                raise Untranslatable("conditional expression with a monadic arm: `%s`" % ast.unparse(node))
+            return "(if %s then %s else %s)" % (test, a, b), ""
+        return Translator2.expr(self, node, scope)
+
+    def _sub_frame(self, node, scope):
+        """translate an operand in its own hoisting frame: (text, [hoisted binds])"""
+        self._pending.append([])
+        self._ctxs.append(self._ctxs[-1] if self._ctxs else None)
+        try:
+            e = self.pure(node, scope)
+        finally:
+            pend = self._pending.pop()
+            self._ctxs.pop()
+        return e, pend
+
+    def _boolop(self, node, scope):
+        """`a and b` / `a or b` keep Python's short circuit: when an operand other than the first needs a hoisted
+        (monadic) sub-expression, the whole test becomes a monadic Boolean that evaluates it only when Python would:
+        `a and b`  ->  if a then (binds of b; unit b) else unit false      (needs `Rules2M.unit`)"""
+        is_and = isinstance(node.op, ast.And)
+        parts = [self._sub_frame(v, scope) for v in node.values]
+        first_e, first_p = parts[0]
+        if first_p:
+            if not self._pending:
+                raise Untranslatable("monadic operand outside a statement: `%s`" % ast.unparse(node))
+            self._pending[-1].extend(first_p)
+        if not any(p for _e, p in parts[1:]):
+            return "(" + (" && " if is_and else " || ").join(e for e, _p in parts) + ")", ""
+        unit = getattr(self.r, "unit", None)
+        if not unit:
+            raise Untranslatable("short-circuit operand that may raise (no `unit` template): `%s`" % ast.unparse(node))
+
+        def binds(pend, text):
+            for m, x in reversed(pend):
+                text = "(" + self.r.bind.format(m=m, x=x, k=text) + ")"
+            return text
+        acc = binds(parts[-1][1], unit.format(e=parts[-1][0]))
+        for e, pend in reversed(parts[1:-1]):
+            inner = ("(if %s then %s else %s)" % (e, acc, unit.format(e="false")) if is_and else
+                     "(if %s then %s else %s)" % (e, unit.format(e="true"), acc))
+            acc = binds(pend, inner)
+        text = ("(if %s then %s else %s)" % (first_e, acc, unit.format(e="false")) if is_and else
+                "(if %s then %s else %s)" % (first_e, unit.format(e="true"), acc))
+        return text, "bind"
+
+    def pure(self, node, scope):
+        e, flag = self.expr(node, scope)
+        if flag == "bind":
+            if not self._pending or (self._ctxs and self._ctxs[-1] is not None and self._ctxs[-1].brk is not None):
+                raise Untranslatable("monadic expression used as an operand where it cannot be hoisted: `%s`" % ast.unparse(node))
+            tmp = "h_%d" % self._tmp
+            self._tmp += 1
+            self._pending[-1].append((e, tmp))
+            return tmp
+        return e
+
+    # ------------------------------------------------------------------------------------------ statements
+    def block(self, stmts, scope, ind, ctx):
+        self._pending.append([])
+        self._ctxs.append(ctx)
+        try:
+            text = self._block1(stmts, scope, ind, ctx)
+        finally:
+            pend = self._pending.pop()
+            self._ctxs.pop()
+        pad = "  " * ind
+        for e, tmp in reversed(pend):
+            text = pad + self.r.bind.format(m=e, x=tmp, k=text)
+        return text
+
+    def _block1(self, stmts, scope, ind, ctx):
+        pad = "  " * ind
+        if not stmts:
+            return ctx.end(scope, ind)
+        st, rest = stmts[0], stmts[1:]
+        if isinstance(st, (ast.Import, ast.ImportFrom)):
+            return self.block(rest, scope, ind, ctx)
+        if isinstance(st, ast.Return):
+            if st.value is None:
+                if self.r.end is None:
+                    raise Untranslatable("bare return")
+                return ctx.exit(self._fmt(self.r.end, scope), scope, ind)
+            e, flag = self.expr(st.value, scope)
+            return ctx.exit(e if flag == "bind" else self._fmt(self.r.ret, scope, e=e), scope, ind)
+        flags = getattr(self.r, "stmt_flag", [])
+        for i, (pat, recv, tmpl) in enumerate(self.r.stmt):
+            if i < len(flags) and flags[i] == "bind":
+                env = {}
+                if match(pat, st, env):
+                    self.used_rules.add(("s", i))
+                    target = env[recv]
+                    if not isinstance(target, ast.Name):
+                        raise Untranslatable("in-place statement on a non-variable: `%s`" % ast.unparse(st))
+                    if ctx.brk is not None:
+                        raise Untranslatable("monadic in-place statement inside a loop body: `%s`" % ast.unparse(st))
+                    val = tmpl.format(**{k: self.pure(v, scope) for k, v in env.items()})
+                    new = self.fresh(target.id, scope)
+                    sc = dict(scope)
+                    sc[target.id] = new
+                    return pad + self.r.bind.format(m=val, x=new, k=self.block(rest, sc, ind + 1, ctx))
+        return Translator2.block(self, stmts, scope, ind, ctx)
+
+    def top_ctx(self):
+        def end(scope, ind):
+            if self.r.end is None:
+                raise Untranslatable("control reaches the end of the function without return/raise")
+            return "  " * ind + self._fmt(self.r.end, scope)
+        return _Ctx(exit_=lambda v, s, i: "  " * i + v, end=end)
+
+
+# =====================================================================================================================
+# Rules2T / Translator2T — APPENDED by the C09 builder (nothing above is changed).  Generic additions, usable by any
+# property whose functions return in `Except ε ρ` (or in any type, as long as the templates below say how):
+#   * try / except [as e] / else          -> every call that may raise (a rule flagged "bind") inside the try body becomes
+#                                            `match m with | .error e => (HANDLER; rest) | .ok v => …`, the handler seeing
+#                                            the variables as they are AT THE POINT OF THE RAISE (Python semantics);
+#                                            which handler catches what: `Rules2T.catch` {class name: Bool template over
+#                                            {e}; "true" = always}; an uncaught exception propagates (`reraise`);
+#                                            `else:` runs unprotected after a normal end; try/finally, break / continue
+#                                            / loops inside a try body: untranslatable;
+#   * a call that may raise inside a `for` body (outside any try) ends the loop and propagates, like `return` does
+#     (the exit component of the fold state is only there when the body can actually exit);
+#   * monadic operands are hoisted in front of their statement (left to right), never out of `and`/`or`/conditional
+#     expressions / comprehensions / lambdas (there they are untranslatable); always as `match`, so the function's
+#     result type need not be a monad;
+#   * `a, b, c = <call that may raise>`;  `<call that may raise>` as a statement (result dropped);
+#   * `raise Cls(args)` with a VALUE: `Rules2T.exc` [(python pattern, template of the exception value)];
+#   * nested `def f(a, b): …` (a closure over variables that are not reassigned later) -> `let f0 := fun a0 b0 => …`;
+#     a call `f(x, y)` of such a closure is a call that may raise;
+#     `lambda a, b: E` -> `(fun a0 b0 => E)` (E may be monadic: the rule using the lambda decides);
+#   * `x is None` / `x is not None`; `import` inside a function body (dropped);
+#   * templates `ret`, `end`, `reraise` may mention `{v_NAME}` = the current Lean name of the Python variable NAME
+#     (so that a method can return its updated receiver next to its result).
+# =====================================================================================================================
+
+class Rules2T(Rules2):
+    """`fn_style=True`: raising calls and loop exits are written with `MenpoModel.Py.tryCatch` / `MenpoModel.Py.onExit`
+    (Core/PyLoop.lean) instead of `match`, so that the translation contains no auxiliary matchers and can be compared
+    with a hand-written definition using the same two functions by `simp` as well as by `rfl`."""
+
+    def __init__(self, expr=(), stmt=(), catch=None, reraise="(Except.error {e})", exc=(), fn_style=False, **kw):
+        kw.setdefault("ret", "(Except.ok ({e}))")
+        kw.setdefault("raise_", None)
+        Rules2.__init__(self, expr=expr, stmt=stmt, **kw)
+        self.catch = dict(catch or {})
+        self.reraise = reraise
+        self.exc = [(_pat(p, "expr"), t) for p, t in exc]
+        self.fn_style = fn_style
+
+
+class _CtxT(_Ctx):
+    def __init__(self, exit_, end, brk=None, on_raise=None, direct=False, in_loop=False):
+        _Ctx.__init__(self, exit_, end, brk)
+        self.on_raise = on_raise    # (lean name of the exception value, scope, ind) -> text; None = propagate
+        self.direct = direct        # a monadic value may be returned as it is (top level, default templates)
+        self.in_loop = in_loop
+
+
+class _NeedExit(Exception):
+    pass
+
+
+def _indent(text, k=1):
+    return "\n".join(("  " * k + l) if l.strip() else l for l in text.split("\n"))
+
+
+class Translator2T(Translator2):
+    def __init__(self, rules):
+        Translator2.__init__(self, rules)
+        self._frames = []
+        self._nohoist = 0
+        self._closures = set()      # lean names of nested defs: calling one is a call that may raise
+
+    # ------------------------------------------------------------------------------------------ templates
+    def fmt(self, tmpl, scope, **extra):
+        env = {"v_" + k: v for k, v in scope.items() if k.isidentifier()}
+        env.update(extra)
+        try:
+            return tmpl.format(**env)
+        except (KeyError, IndexError) as e:
+            raise Untranslatable("template %r needs %s" % (tmpl, e))
+
+    def _default_templates(self):
+        return self.r.reraise == "(Except.error {e})" and self.r.ret == "(Except.ok ({e}))"
+
+    # ------------------------------------------------------------------------------------------ expressions
+    def expr(self, node, scope):
+        for i, (pat, tmpl, flag) in enumerate(self.r.expr):
+            env = {}
+            if match(pat, node, env):
+                self.used_rules.add(i)
+                return tmpl.format(**{k: self.pure(v, scope) for k, v in env.items()}), flag
+        if isinstance(node, ast.Lambda):
+            a = node.args
+            if a.vararg or a.kwarg or a.kwonlyargs or a.defaults or a.posonlyargs or not a.args:
+                raise Untranslatable("lambda with a non-trivial signature: `%s`" % ast.unparse(node))
+            sc, names = dict(scope), []
+            for x in a.args:
+                new = self.fresh(x.arg, sc)
+                sc[x.arg] = new
+                names.append(new)
+            self._nohoist += 1
+            try:
+                body, _flag = self.expr(node.body, sc)
+            finally:
+                self._nohoist -= 1
+            return "(fun %s => %s)" % (" ".join(names), body), ""
+        if (isinstance(node, ast.Compare) and len(node.ops) == 1 and isinstance(node.ops[0], (ast.Is, ast.IsNot))
+                and isinstance(node.comparators[0], ast.Constant) and node.comparators[0].value is None):
+            x = self.pure(node.left, scope)
+            return ("(!(%s).isNone)" if isinstance(node.ops[0], ast.IsNot) else "((%s).isNone)") % x, ""
+        if (isinstance(node, ast.Call) and isinstance(node.func, ast.Name) and not node.keywords
+                and scope.get(node.func.id) in self._closures):
+            args = [self.pure(a, scope) for a in node.args] or ["()"]
+            return "(%s %s)" % (scope[node.func.id], " ".join(args)), "bind"
+        if isinstance(node, (ast.BoolOp, ast.IfExp, ast.ListComp, ast.GeneratorExp)) or (
+                isinstance(node, ast.Call) and isinstance(node.func, ast.Name) and node.func.id in ("any", "all")):
+            self._nohoist += 1
+            try:
+                return Translator2.expr(self, node, scope)
+            finally:
+                self._nohoist -= 1
+        return Translator2.expr(self, node, scope)
+
+    def pure(self, node, scope):
+        e, flag = self.expr(node, scope)
+        if flag != "bind":
+            return e
+        if self._nohoist or not self._frames:
+            raise Untranslatable("a call that may raise is used where it cannot be hoisted: `%s`" % ast.unparse(node))
+        v = self.fresh("v", scope)
+        scope["\0tmp" + v] = v          # in place: the statement's continuation must not reuse the name
+        self._frames[-1].append((e, v, dict(scope)))
+        return v
+
+    # ------------------------------------------------------------------------------------------ raising / binding
+    def raise_(self, e_val, scope, ind, ctx):
+        if getattr(ctx, "on_raise", None) is not None:
+            return ctx.on_raise(e_val, scope, ind)
+        return ctx.exit(self.fmt(self.r.reraise, scope, e=e_val), scope, ind)
+
+    def bind(self, m, hint, scope, ind, ctx, k):
+        """`match m with | .error e => (raise e here) | .ok v => k(v, scope+)`"""
+        pad = "  " * ind
+        sc = dict(scope)
+        v = self.fresh(hint, sc)
+        sc["\0tmp" + v] = v
+        se = dict(scope)
+        e = self.fresh("e", se)
+        se["\0tmp" + e] = e
+        err = self.raise_(e, se, ind + 2, ctx)
+        return self._try_text(pad, m, e, err, v, k(v, sc, ind + 1))
+
+    def _try_text(self, pad, m, e, err, v, ok):
+        if getattr(self.r, "fn_style", False):
+            return "%sMenpoModel.Py.tryCatch %s (fun %s =>\n%s) (fun %s =>\n%s)" % (pad, m, e, err, v, ok)
+        return "%smatch %s with\n%s| .error %s => (\n%s)\n%s| .ok %s =>\n%s" % (pad, m, pad, e, err, pad, v, ok)
+
+    def _wrap(self, frame, text, ind, ctx):
+        pad = "  " * ind
+        for m, v, sc in reversed(frame):
+            se = dict(sc)
+            e = self.fresh("e", se)
+            se["\0tmp" + e] = e
+            err = self.raise_(e, se, ind + 2, ctx)
+            text = self._try_text(pad, m, e, err, v, _indent(text))
+        return text
+
+    # ------------------------------------------------------------------------------------------ statements
+    def assigned_names(self, stmts):
+        out = []
+
+        def walk(sts):
+            for st in sts:
+                if isinstance(st, ast.Try):
+                    if st.finalbody:
+                        raise Untranslatable("try/finally")
+                    walk(st.body)
+                    for h in st.handlers:
+                        walk(h.body)
+                    walk(st.orelse)
+                elif isinstance(st, (ast.Import, ast.ImportFrom)):
+                    pass
+                elif isinstance(st, ast.FunctionDef):
+                    if st.name not in out:
+                        out.append(st.name)
+                elif isinstance(st, ast.If):
+                    walk(st.body)
+                    walk(st.orelse)
+                elif isinstance(st, ast.For):
+                    for n in Translator2.assigned_names(self, [ast.For(target=st.target, iter=st.iter, body=[], orelse=[])]):
+                        if n not in out:
+                            out.append(n)
+                    walk(st.body)
+                else:
+                    for n in Translator2.assigned_names(self, [st]):
+                        if n not in out:
+                            out.append(n)
+        walk(stmts)
+        return out
+
+    @staticmethod
+    def _hasT(stmts, kinds):
+        for st in stmts:
+            if isinstance(st, kinds):
+                return True
+            for f in ("body", "orelse", "finalbody"):
+                if isinstance(st, (ast.If, ast.For, ast.Try)) and Translator2T._hasT(getattr(st, f, []) or [], kinds):
+                    return True
+            if isinstance(st, ast.Try) and any(Translator2T._hasT(h.body, kinds) for h in st.handlers):
+                return True
+        return False
+
+    def block(self, stmts, scope, ind, ctx):
+        frame = []
+        self._frames.append(frame)
+        try:
+            text = self._block1(stmts, scope, ind, ctx)
+        finally:
+            self._frames.pop()
+        return self._wrap(frame, text, ind, ctx) if frame else text
+
+    def _block1(self, stmts, scope, ind, ctx):
+        pad = "  " * ind
+        if not stmts:
+            return ctx.end(scope, ind)
+        st, rest = stmts[0], stmts[1:]
+        if isinstance(st, (ast.Import, ast.ImportFrom)):
+            return self.block(rest, scope, ind, ctx)
+        if isinstance(st, ast.Try):
+            return self.try_(st, rest, scope, ind, ctx)
+        if isinstance(st, ast.FunctionDef):
+            return self.closure(st, rest, scope, ind, ctx)
+        if isinstance(st, ast.Raise) and st.exc is None:
+            raise Untranslatable("bare raise")
+        if isinstance(st, ast.Raise):
+            for pat, tmpl in self.r.exc:
+                env = {}
+                if match(pat, st.exc, env):
+                    val = tmpl.format(**{k: self.pure(v, scope) for k, v in env.items()})
+                    return self.raise_(val, scope, ind, ctx)
+            if getattr(ctx, "on_raise", None) is not None:
+                raise Untranslatable("raise inside try without an `exc` rule: `%s`" % ast.unparse(st))
+            val = self.raise_value(st)
+            if val is None:
+                raise Untranslatable("no rule for `%s`" % ast.unparse(st))
+            return ctx.exit(self.fmt(val, scope), scope, ind)
+        if isinstance(st, ast.Return):
+            if st.value is None:
+                if self.r.end is None:
+                    raise Untranslatable("bare return")
+                return ctx.exit(self.fmt(self.r.end, scope), scope, ind)
+            e, flag = self.expr(st.value, scope)
+            if flag != "bind":
+                return ctx.exit(self.fmt(self.r.ret, scope, e=e), scope, ind)
+            if getattr(ctx, "direct", False) and self._default_templates():
+                return ctx.exit(e, scope, ind)
+            return self.bind(e, "v", scope, ind, ctx,
+                             lambda v, sc, i: ctx.exit(self.fmt(self.r.ret, sc, e=v), sc, i))
+        if isinstance(st, ast.Expr) and not (isinstance(st.value, ast.Constant) and isinstance(st.value.value, str)):
+            for pat, _recv, _t in self.r.stmt:
+                if match(pat, st, {}):
+                    break
+            else:
+                e, flag = self.expr(st.value, scope)
+                if flag != "bind":
+                    raise Untranslatable("expression statement without effect in the vocabulary: `%s`" % ast.unparse(st))
+                return self.bind(e, "u", scope, ind, ctx, lambda v, sc, i: self.block(rest, sc, i, ctx))
+        if isinstance(st, ast.Assign) and len(st.targets) == 1 and not any(match(p, st, {}) for p, _r, _t in self.r.stmt):
+            e, flag = self.expr(st.value, scope)
+            if flag == "bind":
+                def k(v, sc, i):
+                    lines, sc2 = self.bind_target(st.targets[0], v, sc)
+                    return "".join("  " * i + l + "\n" for l in lines) + self.block(rest, sc2, i, ctx)
+                return self.bind(e, "v", scope, ind, ctx, k)
+            lines, sc = self.bind_target(st.targets[0], e, scope)
+            return "".join(pad + l + "\n" for l in lines) + self.block(rest, sc, ind, ctx)
+        if isinstance(st, ast.For) and getattr(ctx, "on_raise", None) is not None:
+            raise Untranslatable("loop inside a try body")
+        return Translator2.block(self, stmts, scope, ind, ctx)
+
+    def closure(self, st, rest, scope, ind, ctx):
+        a = st.args
+        if a.vararg or a.kwarg or a.kwonlyargs or a.defaults or a.posonlyargs or st.decorator_list:
+            raise Untranslatable("nested def with a non-trivial signature: %s" % st.name)
+        free = {n.id for b in st.body for n in ast.walk(b) if isinstance(n, ast.Name)}
+        later = set(self.assigned_names(rest))
+        if free & later:
+            raise Untranslatable("closure %s reads %s, reassigned after its definition" % (st.name, sorted(free & later)))
+        sc, names = dict(scope), []
+        for x in a.args:
+            new = self.fresh(x.arg, sc)
+            sc[x.arg] = new
+            names.append(new)
+        body = self.block(list(st.body), sc, ind + 1, self.top_ctx())
+        new = self.fresh(st.name, scope)
+        after = dict(scope)
+        after[st.name] = new
+        self._closures.add(new)
+        pad = "  " * ind
+        return "%slet %s := fun %s =>\n%s\n%s" % (pad, new, " ".join(names) if names else "(_ : Unit)", body,
+                                                   self.block(rest, after, ind, ctx))
+
+    def try_(self, st, rest, scope, ind, ctx):
+        if st.finalbody:
+            raise Untranslatable("try/finally")
+        if self._hasT(st.body, (ast.Break, ast.Continue)) or any(self._hasT(h.body, (ast.Break, ast.Continue)) for h in st.handlers):
+            raise Untranslatable("break / continue inside try")
+
+        def classes(h):
+            if h.type is None:
+                return [None]
+            ts = h.type.elts if isinstance(h.type, ast.Tuple) else [h.type]
+            out = []
+            for t in ts:
+                if isinstance(t, ast.Name):
+                    out.append(t.id)
+                elif isinstance(t, ast.Attribute):
+                    out.append(t.attr)
+                else:
+                    raise Untranslatable("except clause `%s`" % ast.unparse(h.type))
+            return out
+
+        def on_raise(e, sc_at, i):
+            arms = []
+            for h in st.handlers:
+                tests = []
+                for c in classes(h):
+                    if c is None or c in ("Exception", "BaseException"):
+                        tests.append("true")
+                    elif c in self.r.catch:
+                        tests.append(self.r.catch[c].format(e=e))
+                    else:
+                        raise Untranslatable("no `catch` rule for exception class %r" % c)
+                test = "true" if "true" in tests else "(" + " || ".join(tests) + ")"
+                sc = dict(sc_at)
+                if h.name:
+                    sc[h.name] = e
+                arms.append((test, h, sc))
+                if test == "true":
+                    break
+            text = None if arms and arms[-1][0] == "true" else self.raise_(e, dict(sc_at), i + len(arms), ctx)
+            for depth in range(len(arms) - 1, -1, -1):
+                test, h, sc = arms[depth]
+                body = self.block(list(h.body) + rest, sc, i + depth + (0 if test == "true" else 1), ctx)
+                if test == "true":
+                    text = body
+                else:
+                    p = "  " * (i + depth)
+                    text = "%sif %s then\n%s\n%selse\n%s" % (p, test, body, p, text)
+            return text
+
+        body_ctx = _CtxT(exit_=ctx.exit, end=lambda s, i: self.block(list(st.orelse) + rest, s, i, ctx),
+                         brk=None, on_raise=on_raise, direct=False, in_loop=getattr(ctx, "in_loop", False))
+        return self.block(list(st.body), scope, ind, body_ctx)
+
+    def loop(self, st, rest, scope, ind, ctx):
+        if st.orelse:
+            raise Untranslatable("for/else")
+        it = self.pure(st.iter, scope)
+        syntactic = self._hasT(st.body, (ast.Return, ast.Raise, ast.Assert))
+        for has_exit in ([True] if syntactic else [False, True]):
+            try:
+                return self._loop(st, it, rest, scope, ind, ctx, has_exit)
+            except _NeedExit:
+                continue
+        raise Untranslatable("loop")
+
+    def _loop(self, st, it, rest, scope, ind, ctx, has_exit):
+        pad = "  " * ind
+        carried = [n for n in self.assigned_names(st.body) if n in scope]
+        has_brk = self._has(st.body, (ast.Break,), False)
+        comps = (["\0ret"] if has_exit else []) + (["\0brk"] if has_brk else []) + carried
+        if not comps:
+            raise Untranslatable("loop without any effect on the variables in scope: `%s`" % ast.unparse(st).splitlines()[0])
+        n = len(comps)
+        sc0 = dict(scope)
+        acc = self.fresh("acc", sc0)
+        sc0["\0tmp" + acc] = acc
+        item = self.fresh("it", sc0)
+        sc0["\0tmp" + item] = item
+        lines, sc = [], dict(sc0)
+        for c in carried:
+            new = self.fresh(c, sc)
+            sc[c] = new
+            lines.append("let %s := %s" % (new, _proj(acc, comps.index(c), n)))
+        tl, sc = self.bind_target(st.target, item, sc)
+        lines += tl
+
+        def state(scope_, ret="none", brk="false"):
+            parts = []
+            if has_exit:
+                parts.append(ret)
+            if has_brk:
+                parts.append(brk)
+            parts += [scope_[c] for c in carried]
+            return _tuple(parts)
+
+        def exit_(v, s, i):
+            if not has_exit:
+                raise _NeedExit()
+            return "  " * i + state(s, ret="some (%s)" % v.strip())
+
+        inner = _CtxT(exit_=exit_, end=lambda s, i: "  " * i + state(s), brk=lambda s, i: "  " * i + state(s, brk="true"),
+                      on_raise=None, direct=False, in_loop=True)
+        body = self.block(list(st.body), sc, ind + 2, inner)
+        p3 = "  " * (ind + 2)
+        guard = []
+        if has_exit:
+            guard.append("(%s).isSome" % _proj(acc, 0, n))
+        if has_brk:
+            guard.append(_proj(acc, 1 if has_exit else 0, n))
+        text = "".join(p3 + l + "\n" for l in lines) + body
+        if guard:
+            text = "%sif %s then %s else\n%s" % (p3, " || ".join(guard), acc, text)
+        res = self.fresh("r", sc0)
+        after = dict(scope)
+        after["\0tmp" + res] = res
+        out = "%slet %s := MenpoModel.Py.forLoop %s (%s) (fun %s %s =>\n%s)\n" % (pad, res, state(scope), it, acc, item, text)
+        for c in carried:
+            new = self.fresh(c, after)
+            after[c] = new
+            out += "%slet %s := %s\n" % (pad, new, _proj(res, comps.index(c), n))
+        k = self.block(rest, after, ind + (1 if has_exit else 0), ctx)
+        if has_exit:
+            v = self.fresh("v", after)
+            sc_v = dict(after)
+            sc_v["\0tmp" + v] = v
+            if getattr(self.r, "fn_style", False):
+                return "%s%sMenpoModel.Py.onExit (%s) (fun %s =>\n%s) (\n%s)" % (
+                    out, pad, _proj(res, 0, n), v, ctx.exit(v, sc_v, ind + 2), k)
+            return "%s%smatch %s with\n%s| some %s =>\n%s\n%s| none =>\n%s" % (
+                out, pad, _proj(res, 0, n), pad, v, ctx.exit(v, sc_v, ind + 2), pad, k)
+        return out + k
+
+    def top_ctx(self):
+        def end(scope, ind):
+            if self.r.end is None:
+                raise Untranslatable("control reaches the end of the function without return/raise")
+            return "  " * ind + self.fmt(self.r.end, scope)
+        return _CtxT(exit_=lambda v, s, i: "  " * i + v.strip(), end=end, direct=True)
+
+
+# Generic extensions that live in a module of their own (so that concurrent edits of this file are not disturbed):
+# harness/py2lean2w.py — `Translator2W(Rules2W(...))`: nested defs, `while` loops with fuel (`Py.whileFuel`,
+# lean/MenpoModel/Core/C14PyLoop.lean), for/else, statement rules that rebind several receivers / attribute variables,
+# guard statements, monadic operands hoisted out of their statement, `x is None`, keyword arguments in any order,
+# loop-carried variables in a canonical order.  Self-test: tools/test_py2lean2w.py.
